@@ -85,6 +85,24 @@ func ruleDispatchVisitsAll(c *core.Ctx, a *epAnchors, rule string) {
 			filterCall = call.(ssa.Instruction)
 		}
 	}
+	if filterCall == nil {
+		// the loop body may live in a private helper handed the handler of the slot
+		// (offer(h, msg, status), visit(i, h, msg)): the filter is evaluated there
+		for _, call := range core.Calls(fn) {
+			h := core.StaticCallee(call)
+			if h == nil || !isPrivateHelper(c, h) || !header.Dominates(call.(ssa.Instruction).Block()) {
+				continue
+			}
+			for _, u := range unitOf(c, h) {
+				for _, c2 := range core.Calls(u) {
+					cc := c2.Common()
+					if !cc.IsInvoke() && cc.StaticCallee() == nil && isFieldOf(cc.Value, a.hFilter) {
+						filterCall = call.(ssa.Instruction)
+					}
+				}
+			}
+		}
+	}
 	if filterCall == nil || !header.Dominates(filterCall.Block()) {
 		c.Fail(rule, key, fn.Pos(), "the handler filters are not evaluated inside the loop over the handler table")
 		return
@@ -171,9 +189,34 @@ func ruleSingleWrite(c *core.Ctx, a *epAnchors) {
 	args := final.Common().Args
 	bcall, _ := core.CallResult(core.Canon(args[1]))
 	var buf ssa.Value
+	asm := fn       // the function that assembles the buffer
+	var asmEnd ssa.Instruction = fin // where the assembled bytes leave it
 	if bcall != nil {
-		if f := bcall.Call.StaticCallee(); f != nil && f.Name() == "Bytes" && core.TypeIs(f.Signature.Recv().Type(), "bytes", "Buffer") {
+		if f := bcall.Call.StaticCallee(); f != nil && f.Name() == "Bytes" && f.Signature.Recv() != nil && core.TypeIs(f.Signature.Recv().Type(), "bytes", "Buffer") {
 			buf = core.Canon(bcall.Call.Args[0])
+		} else if f != nil && isPrivateHelper(c, f) && len(f.Blocks) > 0 && !usesValue(bcall, w) {
+			// data, err := m.marshal(): a private helper that packs header and payload and
+			// hands the bytes back; the order is then checked inside it
+			var inner *ssa.Call
+			var lastRet *ssa.Return
+			single := true
+			for _, r := range core.Returns(f) {
+				if !successReturn(r) || len(r.Results) == 0 {
+					continue
+				}
+				bc, _ := core.CallResult(core.Canon(core.RetVal(r, 0)))
+				if bc == nil || (inner != nil && bc != inner) {
+					single = false
+					continue
+				}
+				inner, lastRet = bc, r
+			}
+			if single && inner != nil {
+				if g := inner.Call.StaticCallee(); g != nil && g.Name() == "Bytes" && g.Signature.Recv() != nil && core.TypeIs(g.Signature.Recv().Type(), "bytes", "Buffer") {
+					buf = core.Canon(inner.Call.Args[0])
+					asm, asmEnd, bcall = f, lastRet, inner
+				}
+			}
 		}
 	}
 	if buf == nil {
@@ -194,7 +237,7 @@ func ruleSingleWrite(c *core.Ctx, a *epAnchors) {
 		return
 	}
 	var hw, pw ssa.Instruction
-	for _, call := range core.Calls(fn) {
+	for _, call := range core.Calls(asm) {
 		if core.IsCallTo(call, hdrWrite) && len(call.Common().Args) == 2 && core.Canon(call.Common().Args[1]) == buf {
 			hw = call.(ssa.Instruction)
 		}
@@ -206,13 +249,13 @@ func ruleSingleWrite(c *core.Ctx, a *epAnchors) {
 		c.Fail(rule, bufKey, final.Pos(), "the buffer written to the stream does not receive both the header (Header.Write) and the payload (WriteN of m.Payload)")
 		return
 	}
-	if !(core.Dominates(hw, pw) && core.Dominates(pw, fin)) {
+	if !(core.Dominates(hw, pw) && core.Dominates(pw, asmEnd)) {
 		c.Fail(rule, bufKey, final.Pos(), "header, payload and stream write are not in this order on every path")
 		return
 	}
 	// nothing else writes into the buffer
 	extra := ""
-	for _, call := range core.Calls(fn) {
+	for _, call := range core.Calls(asm) {
 		in := call.(ssa.Instruction)
 		if in == hw || in == pw || call == final || ssa.Instruction(bcall) == in {
 			continue
